@@ -140,10 +140,19 @@ func fill(r vh.R, v reflect.Value, depth int) {
 	case reflect.Map:
 		n := r.IntN(4)
 		m := reflect.MakeMapWithSize(t, n)
+		var prev reflect.Value
 		for i := 0; i < n; i++ {
 			k := reflect.New(t.Key()).Elem()
 			e := reflect.New(t.Elem()).Elem()
-			fill(r, k, depth+1)
+			if i > 0 && r.Bool() {
+				// a key that agrees with the previous one except in its last component (same hash, other length; same
+				// prefix, other last byte): ties on the leading components are where key ordering goes wrong
+				k.Set(prev)
+				perturbTail(r, k)
+			} else {
+				fill(r, k, depth+1)
+			}
+			prev = k
 			fill(r, e, depth+1)
 			if t.Elem().Kind() == reflect.Bool { // map[K]bool is the repository's representation of a set
 				e.SetBool(true)
@@ -177,5 +186,44 @@ func fill(r vh.R, v reflect.Value, depth int) {
 		}
 	case reflect.Interface:
 		// left nil
+	}
+}
+
+
+// perturbTail changes only the last component of a (map key) value.
+func perturbTail(r vh.R, v reflect.Value) {
+	switch v.Kind() {
+	case reflect.Struct:
+		for i := v.NumField() - 1; i >= 0; i-- {
+			if v.Field(i).CanSet() {
+				perturbTail(r, v.Field(i))
+				return
+			}
+		}
+	case reflect.Array:
+		if v.Len() > 0 {
+			perturbTail(r, v.Index(v.Len()-1))
+		}
+	case reflect.Uint8, reflect.Uint16, reflect.Uint32, reflect.Uint64, reflect.Uint:
+		d := uint64(1 + r.IntN(3))
+		if r.Bool() {
+			d = -d
+		}
+		x := v.Uint() + d
+		if v.Type().Bits() < 64 {
+			x &= 1<<uint(v.Type().Bits()) - 1
+		}
+		v.SetUint(x)
+	case reflect.Int8, reflect.Int16, reflect.Int32, reflect.Int64, reflect.Int:
+		v.SetInt(v.Int() ^ 1)
+	case reflect.String:
+		v.SetString(v.String() + string(rune('a'+r.IntN(26))))
+	case reflect.Slice:
+		if v.Type().Elem().Kind() == reflect.Uint8 {
+			b := append(append([]byte(nil), v.Bytes()...), byte(r.IntN(256)))
+			nv := reflect.MakeSlice(v.Type(), len(b), len(b))
+			reflect.Copy(nv, reflect.ValueOf(b))
+			v.Set(nv)
+		}
 	}
 }
